@@ -6,6 +6,7 @@ import MidnightZK.Model.C11.Edwards
 import MidnightZK.Model.C11.Jubjub
 import MidnightZK.Model.C11.Bn
 import MidnightZK.Model.C11.Codec
+import MidnightZK.Model.C11.Batch
 /-!
 Line-protocol handler of property C11.
 
@@ -86,6 +87,32 @@ def both (raw : Ext Fq) (spec : Fq × Fq) : String := fmtExt raw ++ " " ++ fmtPa
 
 def law (p q : Fq × Fq) : Fq × Fq := eAdd aM1 d p q
 
+/-- `JubjubAffine::batch_from_bytes`: parse `(sign, v)`, collect the denominators `1 + d·v²` (zero
+for a rejected `v`), ONE shared inversion (`ff::BatchInvert::batch_invert`, model
+`Batch.batchInvert`), then per item `u = sqrt(numerator · inv)`, sign fix and the ZIP 216 rule
+`!(u == 0 & flip_sign)`. Input = the 32-byte strings as little-endian numbers. -/
+def batchFromBytes (d : Fq) (bs : List Nat) : List (Option (Fq × Fq)) :=
+  let items : List (Option (Nat × Fq × Fq × Fq)) := bs.map fun b =>
+    let sign := b / 2 ^ 255 % 2
+    let vb := b % 2 ^ 255
+    if vb ≥ blsR then none else
+      let v : Fq := ⟨vb⟩
+      let v2 := v * v
+      some (sign, v, v2 - 1, 1 + d * v2)
+  let dens : List Fq := items.map fun it => match it with
+    | some (_, _, _, den) => den
+    | none => (0 : Fq)
+  let invs := Batch.batchInvert dens
+  List.zipWith (fun it inv => match it with
+    | none => none
+    | some (sign, v, num, _) =>
+      match (num * inv).sqrt with
+      | none => none
+      | some u =>
+        let flip := (u.v % 2) != sign
+        let fu := if flip then -u else u
+        if u.v == 0 && flip then none else some (fu, v)) items invs
+
 def answer (op : String) (args : List String) : String :=
   match op, args with
   | "gen", [] => fmtPair ((⟨jjGenU⟩, ⟨jjGenV⟩) : Fq × Fq)
@@ -158,10 +185,20 @@ def answer (op : String) (args : List String) : String :=
     | none => "bad-op"
   | "sum", l => match l.mapM parseExt with
     | some ps =>
-      both (ps.foldl (fun acc p => acc.add d2 p) Ext.identity) (eSum aM1 d (ps.map Ext.toAffine))
+      both (Batch.jjSum d2 ps) (eSum aM1 d (ps.map Ext.toAffine))
     | none => "bad-op"
   | "bn", l => match l.mapM parseExt with
-    | some ps => " ".intercalate ((batchNormalize ps).map fmtPair)
+    -- the two-pass shared inversion (theorem `jj_batch_normalize_spec`: = `map toAffine`)
+    | some ps => " ".intercalate ((Batch.jjBatchNormalize ps).map fmtPair)
+    | none => "bad-op"
+  | "bn_inplace", l => match l.mapM parseExt with
+    | some ps => " ".intercalate ((Batch.jjBatchNormalizeInPlace ps).map fmtExt)
+    | none => "bad-op"
+  | "niels_ident_a", [] => let n : ANiels Fq := ANiels.identity; fmtTuple [n.vpu, n.vmu, n.t2d]
+  | "niels_ident_e", [] => let n : ENiels Fq := ENiels.identity; fmtTuple [n.vpu, n.vmu, n.z, n.t2d]
+  | "dec_batch", l => match l.mapM hexBytes? with
+    | some bss => if bss.any (·.length ≠ 32) then "bad-op" else
+      " ".intercalate ((batchFromBytes d (bss.map leBytesToNat)).map (fmtOpt fmtPair))
     | none => "bad-op"
   | _, _ => "bad-op"
 
@@ -220,6 +257,7 @@ def answer (c : Cfg F) (op : String) (args : List String) : String :=
   match op, args with
   | "gen", [] => fmtW c.gen
   | "b", [] => ff c.b
+  | "sizes", [] => toString (c.compress none).length ++ " " ++ toString (c.serialize none).length
   | "add", [p, q] => match parseW (F := F) p, parseW (F := F) q with
     | some p, some q => fmtW (wAdd a0 p q) | _, _ => "bad-op"
   | "sub", [p, q] => match parseW (F := F) p, parseW (F := F) q with
@@ -304,6 +342,13 @@ def answerBn (c : Cfg F) (op : String) (args : List String) : String :=
     | some p => fp (Bn.endo c.zeta p) | none => "bad-op"
   | "toaffine_raw", [p] => match pp p with
     | some p => fmtW (Bn.toAffine p) | none => "bad-op"
+  | "bnorm_raw", l => match l.mapM pp with
+    -- `Curve::batch_normalize`, two passes with the identity skip (theorem `bn_batch_normalize_spec`)
+    | some ps => " ".intercalate ((Batch.bnBatchNormalize ps).map fmtW)
+    | none => "bad-op"
+  | "sumraw", l => match l.mapM pp with
+    | some ps => fp (Batch.bnSum b3 ps)
+    | none => "bad-op"
   | _, _ => answer c op args
 
 end
